@@ -265,6 +265,12 @@ func goLevel(L *lua.LState, k int, lv Lvl, args []int, next *lua.LFunction, bad 
 // chainPath runs `leaf` as a host function reached through path (empty path = top level). The
 // leaf may be entered more than once (how=twice).
 func chainPath(L *lua.LState, path []Lvl, init []int, leaf func(L *lua.LState) int) (callersOK bool, err error) {
+	return chainPathFill(L, path, 0, init, leaf)
+}
+
+// chainPathFill: the same with `fill` values held at top level below the whole path (brings the
+// registry top close to its size, so that pushes and result copies deeper down make it grow).
+func chainPathFill(L *lua.LState, path []Lvl, fill int, init []int, leaf func(L *lua.LState) int) (callersOK bool, err error) {
 	callersOK = true
 	if len(path) == 0 {
 		return chain(L, 0, nil, init, leaf)
@@ -293,17 +299,36 @@ func chainPath(L *lua.LState, path []Lvl, init []int, leaf func(L *lua.LState) i
 		}
 	}
 	L.SetTop(0)
+	for i := 0; i < fill; i++ {
+		L.Push(lua.LNumber(3000 + i))
+	}
 	a0 := argList(0)
 	av := make([]lua.LValue, len(a0))
 	for i, v := range a0 {
 		av[i] = valGo(v)
 	}
 	err = L.CallByParam(lua.P{Fn: fns[0], NRet: 0, Protect: true}, av...)
-	if L.GetTop() != 0 {
+	if L.GetTop() != fill {
 		callersOK = false
+	}
+	for i := 0; i < fill && i < L.GetTop(); i++ {
+		if L.Get(i+1) != lua.LNumber(3000+i) {
+			callersOK = false
+		}
 	}
 	L.SetTop(0)
 	return
+}
+
+// genFill: how many values to hold at top level below a path.
+func genFill(r *lib.Rand, reg RegOpt) int {
+	switch {
+	case reg.Max > 0 && r.Chance(65):
+		return r.Range(75, 122) // a growing registry of 128: the top ends up near / at the size
+	case reg.Max == 0 && reg.Size >= 256 && r.Chance(15):
+		return r.Range(1, 60)
+	}
+	return 0
 }
 
 func genPath(r *lib.Rand, depth int) []Lvl {
@@ -370,7 +395,7 @@ func stalePath(outerLocals, hi int, hiHow string, innerLocals int) []Lvl {
 // function g (g leaves `junk` values, then its results, and returns the count of results):
 //
 //	luatail  return g(a, ...)                      tail call: all of g's results
-//	luafix   local r0 .. r(p-1) = g(...)           OP_CALL with a fixed result count: g produces one value more
+//	luafix   local r0 .. r(p-1) = g(...)           OP_CALL with a fixed result count: g produces up to two values more
 //	         return r0 .. r(p-1)                   or fewer than the p asked for (truncated / nil-padded)
 //	luapre   return 7, g(...)                      an open result list after a fixed value
 //	reenter  calls a host function that works on its own list, fills temporaries, returns constants
@@ -408,7 +433,7 @@ func wrappedCallee(L *lua.LState, kind string, junk, produced int, fails bool) (
 	case "luatail":
 		return load("local g = ...\nreturn function(a, ...) local j0, j1 = 1, 2; return g(a, ...) end", mk(results)), results
 	case "luafix":
-		n := produced + junk%3 - 1 // what g produces: one fewer, as many, one more
+		n := produced + junk%5 - 2 // what g produces: up to two fewer / more than asked for
 		if n < 0 {
 			n = 0
 		}
